@@ -282,20 +282,38 @@ def evBlocksFloor : Ev → List Nat
 
 def releasedFloor (evs : List Ev) : List Nat := (evs.map evBlocksFloor).flatten
 
-/-- `Pieces.Hole(index, 0)` on the block table of one piece: the first missing block and the
-    number of missing blocks from there up to the next present one (or the end of the piece) -/
-def hole (blocks : List (Option Bytes)) : Option (Nat × Nat) :=
-  let first := blocks.findIdx (·.isNone)
+/-- `Pieces.Hole(index, start·CS)` on the block table of one piece: the first missing block at or
+    after `start` and the number of missing blocks from there up to the next present one (or the
+    end of the piece) -/
+def holeFrom (blocks : List (Option Bytes)) (start : Nat) : Option (Nat × Nat) :=
+  let first := start + (blocks.drop start).findIdx (·.isNone)
   if first ≥ blocks.length then none
   else some (first, ((blocks.drop first).takeWhile (·.isNone)).length)
 
-/-- the range maybeWebseed fetches when nothing is in flight and the hole is below the 1 MiB cap:
-    from the first missing block to the next present block or the end of the piece -/
-def maybeRange (s : Store) : Option (Nat × Nat) :=
+/-- the `for { o, l = Hole(index, o); …; if inFlight(ch) == 0 { break }; o += CS }` loop of
+    maybeWebseed: the first hole whose first block nobody is working on (`infl` = blocks in flight) -/
+def pickHole (blocks : List (Option Bytes)) (infl : List Nat) : Nat → Nat → Option (Nat × Nat)
+  | 0, _ => none
+  | fuel + 1, start =>
+    match holeFrom blocks start with
+    | none => none
+    | some (f, n) => if infl.contains f then pickHole blocks infl fuel (f + 1) else some (f, n)
+
+/-- the cap on a fetch: holes above 1 MiB are cut to 1 MiB or five seconds' worth of data at the
+    web seed's measured rate (rounded up to whole blocks), whichever is larger.
+    `rate5 = uint32(ws.Rate() * 5)` is an environment input; it is 0 for a web seed without history. -/
+def capLen (rate5 l : Nat) : Nat :=
+  if l > 1048576 then
+    let m := if rate5 > 1048576 then (rate5 + CS - 1) % U32 / CS * CS else 1048576
+    if l > m then m else l
+  else l
+
+/-- the range maybeWebseed fetches and reserves: `(offset, length)` within the piece -/
+def maybeRange (s : Store) (infl : List Nat) (rate5 : Nat) : Option (Nat × Nat) :=
   match s.mode with
   | .opn =>
-    (hole s.blocks).map fun (f, n) =>
-      (f * CS, if f + n ≥ s.blocks.length then s.pl - f * CS else n * CS)
+    (pickHole s.blocks infl (s.blocks.length + 1) 0).map fun (f, n) =>
+      (f * CS, capLen rate5 (if f + n ≥ s.blocks.length then s.pl - f * CS else n * CS))
   | _ => none
 
 /-! ## parseContentRange (fmt.Sscanf transcribed) -/
